@@ -316,7 +316,10 @@ func genRotation(r *rand.Rand) (quaternion.Quaternion, refRot, string) {
 			ax = [3]float64{}
 			ax[r.Intn(3)] = pick(r, []float64{1, -1, 2.5})
 		}
-		th := pick(r, []float64{0, math.Pi / 2, math.Pi, 2 * math.Pi, -math.Pi / 3, r.Float64()*14 - 7, r.Float64()*14 - 7})
+		// round 10 (C03-O): angles so small that cos(th/2) rounds to exactly 1 while sin(th/2) does not vanish
+		// (alignment corrections of geo-referenced data): the displacement th*|p| is 9 ... 20 times the
+		// comparison tolerance whatever the magnitude of p
+		th := pick(r, []float64{0, math.Pi / 2, math.Pi, 2 * math.Pi, -math.Pi / 3, r.Float64()*14 - 7, r.Float64()*14 - 7, 2e-8, -1.7e-8, 9e-9})
 		l := len3(ax)
 		k := [3]float64{ax[0] / l, ax[1] / l, ax[2] / l}
 		ct, st := math.Cos(th), math.Sin(th)
